@@ -11,7 +11,7 @@ FRAG = {'order': ['w', 'x'], 'full': {'w': 'weight', 'x': 'chiral'}, 'default': 
         'numeric': {'w'}}
 NUMFORMS_Q = ['sd', 'd.d', 'sd.d', 'ded']
 NUMFORMS_T = ['d', 'sd', 'd.d', 'sd.d', '.d', 'd.', 'dd', 'ded', 'de-d', 'd.dE+d', 'sdesd', 'sdd.dd']
-FREE_KEYS_Q = ['mass', 'Mw']      # user-defined symbols are case sensitive
+FREE_KEYS_Q = ['mass', 'Mw', 'charge']      # user-defined symbols are case sensitive; 'charge' reaches the recorded finding at the quick tier too
 FREE_KEYS_T = ['mass', 'p', 'kwargs', 'r', 'Q', 'charge', 'weight', 'chiral']
 COLLIDING = {'charge', 'weight', 'chiral'}
 
@@ -88,7 +88,7 @@ class C14(core.Prop):
                                 out.append({'mode': level, 'given': list(given), 'free': list(free), 'numform': form})
         # free values that are not plain words
         for level in ('node', 'atom', 'cgatom'):
-            for free in ([fk[0]], [fk[-1]]) if tier == 'quick' else [[k] for k in fk]:
+            for free in ([fk[0]], [fk[1]]) if tier == 'quick' else [[k] for k in fk]:
                 out.append({'mode': level, 'given': [], 'free': list(free), 'numform': nf[0], 'wide': True})
                 out.append({'mode': level, 'given': ['w'], 'free': list(free), 'numform': nf[0], 'wide': True})
         # carry-through the resolver
